@@ -18,8 +18,8 @@ Definition VN : list name := [0; 1]%N.
 Definition FN : list name := [2; 3]%N.
 Definition NM : list name := [0; 1; 2; 3]%N.
 
-(* the guarded prefix is computed by sorted_guard_prefix: guard_step AND the name discipline (variable
-   operations on VN, function operations on FN), the domain of the theorem C13_refinement_prefix;
+(* the guarded prefix is computed by guard_prefix (guard_step only: the name discipline of earlier versions
+   is no longer needed), the domain of the theorem C13_refinement_prefix;
    code 3 is proved unreachable (C13_selfcheck_unreachable), it stays as a check of the checker.
    0: M = observed.  1: M <> observed but the observed outputs agree with S on the guarded prefix.
    2: M <> observed and the observed outputs differ from S inside the guarded prefix.
@@ -27,7 +27,7 @@ Definition NM : list name := [0; 1; 2; 3]%N.
       M = S on the guard would be false *)
 Definition check_case (c : case) : N :=
   let m := run PK VN FN (init 0%N) (fst c) in
-  let g := sorted_guard_prefix PK VN FN (sinit 0%N) (fst c) in
+  let g := guard_prefix PK NM (sinit 0%N) (fst c) in
   let sp := srun PK VN FN (sinit 0%N) (fst c) in
   if list_eqb (list_eqb qres_eqb) m (snd c) then
     if list_eqb (list_eqb qres_eqb) (firstn g m) (firstn g sp) then 0%N else 3%N
@@ -41,4 +41,4 @@ Fixpoint check_all_from (i : N) (cs : list case) : list (N * N) :=
 Definition check_all := check_all_from 0%N.
 (* number of guarded steps over all cases (reported in the evidence) *)
 Definition guard_count (cs : list case) : N :=
-  fold_left (fun acc c => (acc + N.of_nat (sorted_guard_prefix PK VN FN (sinit 0%N) (fst c)))%N) cs 0%N.
+  fold_left (fun acc c => (acc + N.of_nat (guard_prefix PK NM (sinit 0%N) (fst c)))%N) cs 0%N.
